@@ -1,6 +1,12 @@
 package main
 
-import "golang.org/x/tools/go/ssa"
+import (
+	"fmt"
+	"go/token"
+	"go/types"
+
+	"golang.org/x/tools/go/ssa"
+)
 
 func init() { register("C07", propC07) }
 
@@ -39,6 +45,8 @@ func propC07(c *Ctx) propInfo {
 		c.forwardLinks(f, env)
 	}
 	c.floor("E1.P6-forward-refs", 1)
+	c.workBudget()
+	c.bufferSizing() // the bounds proofs of the bit-level readers/writers lean on 8*len(buf) >= cap
 	c.floor("E1.P2-bounds", 150)
 	c.floor("E1.P4-alloc", 15)
 	c.floor("E1.P5-recursion", 5)
@@ -104,4 +112,103 @@ var excC07P5 = map[string]excEntry{
 	"(*boc.Cell).toStringImpl":   {"depth is the depth of the cell tree, which the parser bounds by maxDepth; the total work is bounded by the iterationsLimit counter", []guardRef{gParseDepth}},
 	"(*boc.bagOfCells).revisit":  {"recursion follows cell references; importCell (run first by importRoots) rejects trees deeper than maxDepth", []guardRef{gImportDepth}},
 	"boc.newImmutableCell":       {"recursion follows cell references of an acyclic tree (references strictly forward, P6) whose depth the parser bounds by maxDepth", []guardRef{gParseDepth}},
+}
+
+// workBudget: the printing recursion is bounded in total work by a countdown passed by pointer.
+// The countdown idiom is sound when the stop test and the decrement fit together: a test for
+// equality with zero needs a decrement of exactly one (otherwise the counter can step over zero and
+// the limit never fires); an inequality test (<= 0) works with any positive decrement. The recursive
+// call must be behind the failing edge of the stop test.
+func (c *Ctx) workBudget() {
+	const R = "E1.P5-budget"
+	f := c.mustFn(R, "boc", "Cell.toStringImpl")
+	if f == nil {
+		return
+	}
+	var lim *ssa.Parameter
+	for _, p := range f.Params {
+		if pt, ok := p.Type().(*types.Pointer); ok && isInteger(pt.Elem()) {
+			lim = p
+		}
+	}
+	if lim == nil {
+		c.bad(R, "toStringImpl has a work budget", f.Pos(), "Cell.toStringImpl no longer takes a countdown by pointer: its total work on a DAG-shaped input is unbounded")
+		return
+	}
+	isLoad := func(v ssa.Value) bool {
+		u, ok := v.(*ssa.UnOp)
+		return ok && u.Op == token.MUL && u.X == ssa.Value(lim)
+	}
+	var stop []edge
+	eqTest := false
+	for _, b := range f.Blocks {
+		iff := lastIf(b)
+		if iff == nil {
+			continue
+		}
+		bo, ok := iff.Cond.(*ssa.BinOp)
+		if !ok || !isLoad(bo.X) {
+			continue
+		}
+		if k, ok := constInt(bo.Y); !ok || k != 0 {
+			continue
+		}
+		switch bo.Op {
+		case token.EQL:
+			eqTest = true
+			stop = append(stop, edge{b, 1}) // continuing edge
+		case token.LEQ, token.LSS:
+			stop = append(stop, edge{b, 1})
+		case token.NEQ, token.GTR:
+			if bo.Op == token.NEQ {
+				eqTest = true
+			}
+			stop = append(stop, edge{b, 0})
+		}
+	}
+	unit := true
+	nDec := 0
+	for _, st := range storesTo(lim) {
+		bo, ok := st.Val.(*ssa.BinOp)
+		if !ok || bo.Op != token.SUB || !isLoad(bo.X) {
+			unit = false
+			continue
+		}
+		nDec++
+		if k, ok := constInt(bo.Y); !ok || k != 1 {
+			unit = false
+		}
+	}
+	recOK := true
+	nRec := 0
+	allInstrs(f, func(b *ssa.BasicBlock, in ssa.Instruction) {
+		if cl, ok := in.(*ssa.Call); ok {
+			if sc := cl.Call.StaticCallee(); sc != nil && origin(sc) == origin(f) {
+				nRec++
+				d := false
+				for _, e := range stop {
+					if edgeDominates(f, e, b) {
+						d = true
+					}
+				}
+				if !d {
+					recOK = false
+				}
+				// the same counter is handed down
+				passes := false
+				for _, a := range cl.Call.Args {
+					if a == ssa.Value(lim) {
+						passes = true
+					}
+				}
+				if !passes {
+					recOK = false
+				}
+			}
+		}
+	})
+	okv := len(stop) > 0 && nDec > 0 && recOK && nRec > 0 && (!eqTest || unit)
+	c.check(okv, R, "toStringImpl: countdown test and decrement fit together, recursion behind the test", f.Pos(), "*limit == 0 -> stop; *limit -= 1; recursive calls pass the same counter",
+		fmt.Sprintf("Cell.toStringImpl's work budget is not a sound countdown (stop tests: %d, equality test: %v, decrements: %d, all by exactly 1: %v, recursive calls behind the test with the same counter: %v): with a decrement other than 1 the counter steps over zero and a small DAG-shaped BOC prints for ever", len(stop), eqTest, nDec, unit, recOK))
+	c.floor(R, 1)
 }
